@@ -11,7 +11,7 @@ def validate_quic(chk, runs):
         pk = []
         for dg in run["pkts"]:
             for m in dg:
-                pk.append(dict(d=m["d"], sp=LEVELSPACE[m["level"]], level=m["level"], pn=m["pn"], pnlen=m["pnlen"], gen=m["gen"]))
+                pk.append(dict(d=m["d"], sp=LEVELSPACE[m["level"]], level=m["level"], pn=m["pn"], pnlen=m["pnlen"], gen=m["gen"], noise=bool(m.get("noise"))))
         evs = []
         for e in run["events"]:
             if e["ev"] == "qpn" and e.get("full") is not None:
